@@ -13,6 +13,7 @@
 #include "upa/url_ip.h"
 #include "upa/url_percent_encode.h"
 #include "upa/url_search_params.h"
+#include "buf_ops.h"
 
 #include <cstdio>
 #include <cstdlib>
@@ -878,6 +879,14 @@ static std::string exec(const std::vector<std::string>& t, std::string& preds) {
         const upa::code_point_set set(&init_user_set);
         const auto units = parse_units(t[5]);
         return hx(with_arg(t[4], units, [&](auto&& a) { return upa::percent_encode(a, set); }));
+    }
+    if (op == "buf" && t.size() == 3) return upa_verif_buf::op_buf(t[1], t[2], static_cast<std::string(*)(const char*, std::size_t)>(hx));
+    if (op == "sv" && t.size() == 4) {
+        // the BUNDLED view, whatever the language mode of this build
+        std::string a, b;
+        for (auto u : parse_units(t[1])) a.push_back(static_cast<char>(u));
+        for (auto u : parse_units(t[2])) b.push_back(static_cast<char>(u));
+        return upa_verif_buf::op_sv<upa::str_view<char>>(a, b, t[3], static_cast<std::string(*)(const char*, std::size_t)>(hx));
     }
     if (op == "pdec" && t.size() == 3) {
         const auto units = parse_units(t[2]);
